@@ -37,7 +37,7 @@ Proof.
   assert (Em : memb 207 (ends false missed_data (join_chain (split_at_large_gaps missed_items)) 0) = true)
     by (vm_compute; reflexivity).
   destruct (H 0 207) as [y [Hy _]].
-  - apply ends_spec. apply memb_In. exact Em.
+  - apply ends_spec. exact (proj1 (memb_In _ _) Em).
   - rewrite E in Hy. exact Hy.
 Qed.
 
@@ -66,7 +66,7 @@ Proof.
   exists wide_items, wide_data, (mkM 0 9 None). split.
   - rewrite E. left. reflexivity.
   - exists 0, 9. split; [reflexivity|]. split; [reflexivity|].
-    intro H. apply ends_spec, memb_In in H. rewrite Em in H. discriminate.
+    intro H. apply ends_spec in H. apply (proj2 (memb_In _ _)) in H. rewrite Em in H. discriminate.
 Qed.
 
 (* the hypotheses of chain_literal_sound are satisfiable: a two-piece chain *)
